@@ -62,3 +62,8 @@ macro "tr_auto_nf" : tactic =>
       P1.toList, P2.toList, P3.toList, M2.toList, M3.toList, M4.toList, Quat.toList] <;>
     (repeat' apply And.intro) <;> ring_nf))
 end Cg
+
+namespace Cg
+/-- for the generated obligations (`Trace/*Auto.lean`): whichever of the two normalisers closes it -/
+macro "tr_any" : tactic => `(tactic| first | (tr_auto; done) | (tr_auto_nf; done))
+end Cg
